@@ -5,6 +5,7 @@ import (
 	"encoding/hex"
 	"encoding/json"
 	"fmt"
+	"regexp"
 	"sort"
 	"strings"
 
@@ -14,6 +15,8 @@ import (
 
 // Snap is a full observable snapshot: url -> canonical response ("status|canonical body or hash").
 type Snap struct {
+	Names      map[string]string // uuid -> normalised name (only when normalising)
+	raw        map[string]drv.Resp
 	M          map[string]string
 	MutationID map[string]uint64 // repo root -> MutationID (compared with >= across restarts)
 	SavedMutID map[string]uint64
@@ -144,7 +147,7 @@ func (wd *World) get(s *Snap, url string) error {
 	if r.Status == 200 && strings.Contains(url, "/sparsevol") && !strings.Contains(url, "sparsevol-size") {
 		r.Body = canonRLE(r.Body)
 	}
-	s.M[url] = Canon(r)
+	s.raw[url] = r
 	return nil
 }
 
@@ -153,7 +156,7 @@ func (wd *World) getBody(s *Snap, url string, body []byte, tag string) error {
 	if err != nil {
 		return fmt.Errorf("GET %s: %w", url, err)
 	}
-	s.M[url+" "+tag] = Canon(r)
+	s.raw[url+" "+tag] = r
 	return nil
 }
 
@@ -162,7 +165,7 @@ func (wd *World) post(s *Snap, url string, body []byte, tag string) error {
 	if err != nil {
 		return fmt.Errorf("POST %s: %w", url, err)
 	}
-	s.M["POST "+url+" "+tag] = Canon(r)
+	s.raw["POST "+url+" "+tag] = r
 	return nil
 }
 
@@ -178,7 +181,7 @@ func sortedKeysU(m map[uint64]bool) []uint64 {
 // Snapshot reads every read endpoint of every instance at every version, plus repo-level JSON.
 // Versions may be restricted (nil = all nodes of the DAG model).
 func (wd *World) Snapshot(versions []string) (*Snap, error) {
-	s := &Snap{M: map[string]string{}, MutationID: map[string]uint64{}, SavedMutID: map[string]uint64{}}
+	s := &Snap{raw: map[string]drv.Resp{}, M: map[string]string{}, MutationID: map[string]uint64{}, SavedMutID: map[string]uint64{}}
 	// repo-level
 	r, err := wd.W.Get("/api/repos/info")
 	if err != nil {
@@ -379,7 +382,86 @@ func (wd *World) Snapshot(versions []string) (*Snap, error) {
 	}
 	_ = pts
 	_ = dvc.Absent
+	var rp *strings.Replacer
+	if wd.Normalize {
+		rp = s.normalize(r.Body)
+	}
+	for k, resp := range s.raw {
+		if rp != nil {
+			k = fixText(rp, k)
+			if len(resp.Body) > 0 && (resp.Body[0] == '{' || resp.Body[0] == '[' || resp.Body[0] == '"') {
+				resp.Body = []byte(fixText(rp, string(resp.Body)))
+			}
+		}
+		s.M[k] = Canon(resp)
+	}
+	s.raw = nil
 	return s, nil
+}
+
+func fixText(rp *strings.Replacer, x string) string {
+	x = rp.Replace(x)
+	x = reTime.ReplaceAllString(x, "<time>")
+	x = rePath.ReplaceAllString(x, "<dir>/")
+	return x
+}
+
+var reTime = regexp.MustCompile(`[0-9]{4}-[0-9]{2}-[0-9]{2}T[0-9]{2}:[0-9]{2}:[0-9]{2}(\.[0-9]+)?(Z|[+-][0-9]{2}:[0-9]{2})`)
+var rePath = regexp.MustCompile(`/[A-Za-z0-9_./-]*vcheck-[A-Za-z0-9_-]+/[A-Za-z0-9_.-]+/`)
+
+// normalize makes snapshots of two different runs of the same deterministic workload comparable:
+// node UUIDs become V<version id>, data UUIDs become D<instance name>, timestamps and scratch paths are masked.
+func (s *Snap) normalize(reposInfo []byte) *strings.Replacer {
+	repl := map[string]string{}
+	repos, err := dvc.ParseRepos(reposInfo)
+	if err == nil {
+		for _, ri := range repos {
+			if ri == nil {
+				continue
+			}
+			for u, n := range ri.DAG.Nodes {
+				repl[u] = fmt.Sprintf("V%d", n.VersionID)
+			}
+			for name, raw := range ri.DataInstances {
+				var d struct{ Base struct{ DataUUID string } }
+				if json.Unmarshal(raw, &d) == nil && d.Base.DataUUID != "" {
+					repl[d.Base.DataUUID] = "D" + name
+				}
+			}
+		}
+	}
+	var olds []string
+	for k := range repl {
+		olds = append(olds, k)
+	}
+	sort.Slice(olds, func(i, j int) bool { return len(olds[i]) > len(olds[j]) })
+	var pairs []string
+	for _, k := range olds {
+		if len(k) >= 8 {
+			pairs = append(pairs, k, repl[k])
+		}
+	}
+	s.Names = repl
+	rp := strings.NewReplacer(pairs...)
+	// entries derived from repos/info were already canonicalised: rename inside them and re-canonicalise
+	m := make(map[string]string, len(s.M))
+	for k, v := range s.M {
+		v = fixText(rp, v)
+		var x interface{}
+		dec := json.NewDecoder(strings.NewReader(v))
+		dec.UseNumber()
+		if dec.Decode(&x) == nil {
+			v = canonJSON(x)
+		}
+		m[fixText(rp, k)] = v
+	}
+	s.M = m
+	mi := map[string]uint64{}
+	for k, v := range s.MutationID {
+		mi[fixText(rp, k)] = v
+	}
+	s.MutationID = mi
+	return rp
 }
 
 // Diff lists differences between two snapshots (bounded).
